@@ -1,8 +1,11 @@
 (* Model/ArcLen.v — commonroad/scenario/lanelet.py: Lanelet.distance (lines 293-301),
    _compute_polyline_cumsum_dist (357-366, one polyline), interpolate_position (658-679),
    merge_lanelets (779-836: orientation of the pair, joint test, concatenation, id, pred/succ), over Q.
-   The segment lengths sqrt(dx^2+dy^2) are oracle values: [distance] takes the list [ls] of the n-1 numbers
-   numpy computed; the theorems assume  0 <= l_i  and  l_i^2 == dx_i^2 + dy_i^2  (Proofs/ArcLen.v: valid_lens).
+   Vertices are (x, y, z): the library accepts (n x 2) and (n x 3) polylines (is_valid_polyline) and every
+   statement modelled here works on whole rows (np.diff(axis=0), sum(axis=1), row-wise linear combination,
+   np.isclose(...).all()); a 2-D vertex is the 3-D vertex with z = 0 (its z terms vanish in every formula).
+   The segment lengths sqrt(dx^2+dy^2+dz^2) are oracle values: [distance] takes the list [ls] of the n-1 numbers
+   numpy computed; the theorems assume  0 <= l_i  and  l_i^2 == dx_i^2 + dy_i^2 + dz_i^2  (Proofs/ArcLen.v: valid_lens).
    numpy.cumsum is sequential addition (exact here, rounded there); numpy.searchsorted(a, v) (side='left') on a
    sorted array is the first index i with v <= a[i] = the length of the maximal prefix of elements < v. *)
 From Coq Require Import QArith Qabs ZArith Bool List.
@@ -10,17 +13,19 @@ From CR Require Import Base.QMod.
 Import ListNotations.
 Open Scope Q_scope.
 
-Definition pt := (Q * Q)%type.
-Definition px (p : pt) : Q := fst p.
-Definition py (p : pt) : Q := snd p.
+Definition pt := (Q * Q * Q)%type.
+Definition px (p : pt) : Q := fst (fst p).
+Definition py (p : pt) : Q := snd (fst p).
+Definition pz (p : pt) : Q := snd p.
 
 (* np.diff(polyline, axis=0) *)
 Fixpoint deltas (P : list pt) : list pt :=
   match P with
-  | a :: ((b :: _) as r) => (px b - px a, py b - py a) :: deltas r
+  | a :: ((b :: _) as r) => (px b - px a, py b - py a, pz b - pz a) :: deltas r
   | _ => []
   end.
-Definition norm2 (d : pt) : Q := px d * px d + py d * py d.
+(* np.square(d).sum(axis=1) *)
+Definition norm2 (d : pt) : Q := px d * px d + py d * py d + pz d * pz d.
 
 (* np.cumsum(np.append([0], ls)) = [0, l1, l1+l2, ...] *)
 Fixpoint cumsum_from (acc : Q) (ls : list Q) : list Q :=
@@ -53,7 +58,8 @@ Fixpoint fix_idx (fuel : nat) (d : list Q) (s : Q) (i : Z) : option Z :=
            end
   end.
 
-Definition lerp (r : Q) (p q : pt) : pt := ((1 - r) * px p + r * px q, (1 - r) * py p + r * py q).
+Definition lerp (r : Q) (p q : pt) : pt :=
+  ((1 - r) * px p + r * px q, (1 - r) * py p + r * py q, (1 - r) * pz p + r * pz q).
 
 Inductive ires :=
 | IOk (c r l : pt) (idx : Z)      (* (center, right, left, segment id) *)
@@ -88,7 +94,8 @@ Definition memZ (x : Z) (l : list Z) : bool := existsb (Z.eqb x) l.
 Definition atol : Q := 1 # 100000000.
 Definition rtol : Q := 1 # 100000.
 Definition isclose (a b : Q) : bool := Qle_bool (Qabs (a - b)) (atol + rtol * Qabs b).
-Definition pt_close (p q : pt) : bool := isclose (px p) (px q) && isclose (py p) (py q).
+(* np.isclose(p, q).all() *)
+Definition pt_close (p q : pt) : bool := isclose (px p) (px q) && isclose (py p) (py q) && isclose (pz p) (pz q).
 
 (* int(str(a) + str(b)) for naturals: a * 10^digits(b) + b *)
 Fixpoint pow10_above (fuel : nat) (p n : Z) : Z :=
@@ -104,7 +111,7 @@ Definition merge (l1 l2 : lanelet) : mres :=
   if negb (memZ (l_id l1) (l_succ l2) || memZ (l_id l2) (l_succ l1) ||
            memZ (l_id l1) (l_pred l2) || memZ (l_id l2) (l_pred l1)) then MAssert else
   let '(pred, suc) := if memZ (l_id l1) (l_pred l2) || memZ (l_id l2) (l_succ l1) then (l1, l2) else (l2, l1) in
-  let idx := if pt_close (last (l_left pred) (0, 0)) (hd (0, 0) (l_left suc)) then 1%nat else 0%nat in
+  let idx := if pt_close (last (l_left pred) (0, 0, 0)) (hd (0, 0, 0) (l_left suc)) then 1%nat else 0%nat in
   MOk {| l_id := concat_id (l_id pred) (l_id suc);
          l_left := l_left pred ++ skipn idx (l_left suc);
          l_center := l_center pred ++ skipn idx (l_center suc);
